@@ -586,4 +586,306 @@ theorem bs_verified_chain {env : VEnv} {sigs : Sigs} {t : GoTime.T} {ver : BVer}
   obtain ⟨_, hidx, _, hsv, hd, _⟩ := bs_verifyVouchedSubset_sound hv
   exact ⟨vs, hvs, ss, auth, hv, ha, hidx, hsv, hd, by rw [hfind]; rfl⟩
 
+/-! ## §4 sign → verify round trip -/
+
+/-! ### CBOR items -/
+
+theorem bs_decode_tstr (k r : Bytes) (hu : utf8Valid k = true) (hl : k.length < 2 ^ 63) :
+    decodeTextString (Bundle.tstr k ++ r) = some (k, r) :=
+  C12.decodeText_complete _ _ ⟨_, encodeHead_isHead 3 _ (by decide) (by omega), rfl⟩ hl hu r
+
+theorem bs_textOrEmpty (s : Bytes) (hu : utf8Valid s = true) : textOrEmpty s = Bundle.tstr s := by
+  unfold textOrEmpty encodeText Bundle.tstr
+  rw [if_pos hu]
+
+theorem bs_tstr_inj {a b : Bytes} (ha : utf8Valid a = true) (hb : utf8Valid b = true) (hla : a.length < 2 ^ 63)
+    (hlb : b.length < 2 ^ 63) (h : Bundle.tstr a = Bundle.tstr b) : a = b := by
+  have h1 := bs_decode_tstr a [] ha hla
+  have h2 := bs_decode_tstr b [] hb hlb
+  rw [h, h2] at h1
+  injection h1 with h1
+  injection h1 with h1 _
+  exact h1.symm
+
+theorem bs_decode_int (z : Int) (r : Bytes) (h0 : 0 ≤ z) (h1 : z < 2 ^ 63) :
+    decodeUint (encodeInt z ++ r) = some (z.toNat, r) ∧ toInt64 z.toNat = z := by
+  constructor
+  · unfold encodeInt
+    rw [if_pos h0]
+    exact C12.roundtrip_uint z.toNat (by omega) r
+  · unfold toInt64
+    rw [if_pos (by omega)]
+    omega
+
+theorem bs_unixIsZero_false (d : Int) (h0 : 0 ≤ d) (h1 : d < 2 ^ 63) : unixIsZero d = false := by
+  unfold unixIsZero GoTime.ofUnix GoTime.wrapS64 GoTime.unixToInternal
+  simp only [beq_eq_false_iff_ne, ne_eq]
+  omega
+
+/-! ### the subset-hashes map -/
+
+def riBytes (ri : ResourceIntegrity) : Bytes := encodeBytes ri.headerSha256 ++ textOrEmpty ri.payloadIntegrityHeader
+
+/-- the map entry `SignedSubset.Encode` writes for one URL -/
+def hashesEntry (p : Bytes × ResponseHashes) : Entry :=
+  (textOrEmpty p.1, encodeArrayHeader (1 + p.2.hashes.length * 2) ++ encodeBytes p.2.variantsValue ++
+    (p.2.hashes.map riBytes).flatten)
+
+def GoodRI (ri : ResourceIntegrity) : Prop :=
+  ri.headerSha256.length < 2 ^ 63 ∧ utf8Valid ri.payloadIntegrityHeader = true ∧ ri.payloadIntegrityHeader.length < 2 ^ 63
+
+def GoodRH (rh : ResponseHashes) : Prop :=
+  rh.variantsValue.length < 2 ^ 63 ∧ rh.hashes ≠ [] ∧ 1 + rh.hashes.length * 2 < 2 ^ 64 ∧ ∀ ri ∈ rh.hashes, GoodRI ri
+
+/-- an entry of `SubsetHashes` that the reader can read back: URL valid UTF-8, at least one integrity pair,
+    all lengths in range -/
+def GoodEntry (p : Bytes × ResponseHashes) : Prop := utf8Valid p.1 = true ∧ p.1.length < 2 ^ 63 ∧ GoodRH p.2
+
+theorem bs_encodeSignedSubset_def (s : SignedSubset) : encodeSignedSubset s = encodeMap [
+    (Bundle.tstr kValidityUrl, textOrEmpty s.validityUrl),
+    (Bundle.tstr kAuthSha256, encodeBytes s.authSha256),
+    (Bundle.tstr kDate, encodeInt s.date),
+    (Bundle.tstr kExpires, encodeInt s.expires),
+    (Bundle.tstr kSubsetHashes, mapOrHeader (s.subsetHashes.map hashesEntry))] := rfl
+
+theorem bs_decodeHashPairs : ∀ (l acc : List ResourceIntegrity) (r : Bytes), (∀ ri ∈ l, GoodRI ri) →
+    decodeHashPairs l.length ((l.map riBytes).flatten ++ r) acc = some (acc ++ l, r) := by
+  intro l
+  induction l with
+  | nil => intro acc r _; simp [decodeHashPairs]
+  | cons ri rest ih =>
+    intro acc r hg
+    obtain ⟨g1, g2, g3⟩ := hg ri List.mem_cons_self
+    rw [List.length_cons, decodeHashPairs, List.map_cons, List.flatten_cons, riBytes, bs_textOrEmpty _ g2]
+    simp only [List.append_assoc]
+    rw [C12.roundtrip_bytes _ g1]
+    simp only
+    rw [bs_decode_tstr _ _ g2 g3]
+    simp only
+    rw [ih _ _ (fun x hx => hg x (List.mem_cons_of_mem _ hx))]
+    simp only [List.append_assoc, List.singleton_append]
+
+theorem bs_insertHash_fresh (m : List (Bytes × ResponseHashes)) (u : Bytes) (rh : ResponseHashes)
+    (h : u ∉ m.map Prod.fst) : insertHash m u rh = m ++ [(u, rh)] := by
+  unfold insertHash
+  rw [if_neg]
+  intro hany
+  obtain ⟨x, hx, hxu⟩ := List.any_eq_true.mp hany
+  exact h (List.mem_map.mpr ⟨x, hx, eq_of_beq hxu⟩)
+
+theorem bs_decodeSubsetEntries : ∀ (l acc : List (Bytes × ResponseHashes)) (r : Bytes), (∀ p ∈ l, GoodEntry p) →
+    ((acc ++ l).map Prod.fst).Nodup →
+    decodeSubsetEntries l.length (((l.map hashesEntry).map fun e => e.1 ++ e.2).flatten ++ r) acc = some (acc ++ l, r) := by
+  intro l
+  induction l with
+  | nil => intro acc r _ _; simp [decodeSubsetEntries]
+  | cons p rest ih =>
+    intro acc r hg hnd
+    obtain ⟨g1, g2, g3, g4, g5, g6⟩ := hg p List.mem_cons_self
+    obtain ⟨u, rh⟩ := p
+    simp only at g1 g2 g3 g4 g5 g6
+    rw [List.length_cons, decodeSubsetEntries, List.map_cons, List.map_cons, List.flatten_cons, hashesEntry]
+    simp only [bs_textOrEmpty _ g1, List.append_assoc]
+    rw [bs_decode_tstr _ _ g1 g2]
+    simp only
+    rw [C12.roundtrip_arrayHeader _ g5]
+    simp only
+    have hlen : 0 < rh.hashes.length := List.length_pos_iff.mpr g4
+    rw [if_neg (by omega)]
+    rw [C12.roundtrip_bytes _ g3]
+    simp only
+    have hk : (1 + rh.hashes.length * 2 - 1) / 2 = rh.hashes.length := by omega
+    rw [hk, bs_decodeHashPairs _ _ _ g6]
+    simp only [List.nil_append]
+    have hfresh : u ∉ acc.map Prod.fst := by
+      intro hu
+      rw [List.map_append, List.map_cons] at hnd
+      have := (List.nodup_append.mp hnd).2.2 u hu u (List.mem_cons_self)
+      exact this rfl
+    rw [bs_insertHash_fresh _ _ _ hfresh]
+    have := ih (acc ++ [(u, rh)]) r (fun x hx => hg x (List.mem_cons_of_mem _ hx))
+      (by simpa [List.append_assoc] using hnd)
+    rw [this]
+    simp only [List.append_assoc, List.singleton_append]
+
+/-- the order in which `EncodeMap` emits the URLs -/
+def sortHashes (l : List (Bytes × ResponseHashes)) : List (Bytes × ResponseHashes) :=
+  l.mergeSort fun a b => entryLe (hashesEntry a) (hashesEntry b)
+
+theorem bs_sortHashes_perm (l : List (Bytes × ResponseHashes)) : (sortHashes l).Perm l := List.mergeSort_perm _ _
+
+theorem bs_sortEntries_map (l : List (Bytes × ResponseHashes)) :
+    sortEntries (l.map hashesEntry) = (sortHashes l).map hashesEntry := by
+  unfold sortEntries sortHashes
+  exact (List.map_mergeSort (f := hashesEntry) (s := entryLe) (fun _ _ _ _ => rfl)).symm
+
+theorem bs_nodup_map_on {α β : Type} (g : α → β) : ∀ (l : List α), l.Nodup → (∀ a ∈ l, ∀ b ∈ l, g a = g b → a = b) →
+    (l.map g).Nodup := by
+  intro l
+  induction l with
+  | nil => intro _ _; exact List.nodup_nil
+  | cons x xs ih =>
+    intro hnd hinj
+    rw [List.nodup_cons] at hnd
+    rw [List.map_cons, List.nodup_cons]
+    refine ⟨?_, ih hnd.2 (fun a ha b hb => hinj a (List.mem_cons_of_mem _ ha) b (List.mem_cons_of_mem _ hb))⟩
+    intro hm
+    obtain ⟨y, hy, hxy⟩ := List.mem_map.mp hm
+    have := hinj y (List.mem_cons_of_mem _ hy) x List.mem_cons_self hxy
+    rw [this] at hy
+    exact hnd.1 hy
+
+theorem bs_hashKeys_nodup (l : List (Bytes × ResponseHashes)) (hg : ∀ p ∈ l, GoodEntry p) (hnd : (l.map Prod.fst).Nodup) :
+    ((l.map hashesEntry).map Prod.fst).Nodup := by
+  have he : (l.map hashesEntry).map Prod.fst = (l.map Prod.fst).map textOrEmpty := by
+    rw [List.map_map, List.map_map]; rfl
+  rw [he]
+  apply bs_nodup_map_on _ _ hnd
+  intro a ha b hb hab
+  obtain ⟨pa, hpa, rfl⟩ := List.mem_map.mp ha
+  obtain ⟨pb, hpb, rfl⟩ := List.mem_map.mp hb
+  obtain ⟨a1, a2, _⟩ := hg pa hpa
+  obtain ⟨b1, b2, _⟩ := hg pb hpb
+  rw [bs_textOrEmpty _ a1, bs_textOrEmpty _ b1] at hab
+  exact bs_tstr_inj a1 b1 a2 b2 hab
+
+theorem bs_mapOrHeader_eq (l : List (Bytes × ResponseHashes)) (hg : ∀ p ∈ l, GoodEntry p) (hnd : (l.map Prod.fst).Nodup) :
+    mapOrHeader (l.map hashesEntry) =
+      encodeMapHeader l.length ++ (((sortHashes l).map hashesEntry).map fun e => e.1 ++ e.2).flatten := by
+  unfold mapOrHeader encodeMap
+  simp only
+  rw [if_neg (by rw [(hasAdjDup_sort_iff _).mpr (bs_hashKeys_nodup l hg hnd)]; decide)]
+  simp only [bs_sortEntries_map, List.length_map]
+
+/-! ### the five top-level keys -/
+
+theorem bs_perm5 {α : Type} (vu au d x sh : α) : [d, x, au, vu, sh].Perm [vu, au, d, x, sh] := by
+  apply List.Perm.symm
+  refine (List.perm_middle (l₁ := [vu, au]) (l₂ := [x, sh])).trans (List.Perm.cons _ ?_)
+  refine (List.perm_middle (l₁ := [vu, au]) (l₂ := [sh])).trans (List.Perm.cons _ ?_)
+  exact (List.perm_middle (l₁ := [vu]) (l₂ := [sh])).trans (List.Perm.cons _ (List.Perm.refl _))
+
+/-- keys are emitted sorted by encoded key: "date" (0x64…), "expires" (0x67…), "auth-sha256" (0x6b…),
+    "validity-url" (0x6c…), "subset-hashes" (0x6d…) -/
+theorem bs_sort5 (vu au d x sh : Bytes) :
+    sortEntries [(Bundle.tstr kValidityUrl, vu), (Bundle.tstr kAuthSha256, au), (Bundle.tstr kDate, d),
+      (Bundle.tstr kExpires, x), (Bundle.tstr kSubsetHashes, sh)] =
+    [(Bundle.tstr kDate, d), (Bundle.tstr kExpires, x), (Bundle.tstr kAuthSha256, au),
+      (Bundle.tstr kValidityUrl, vu), (Bundle.tstr kSubsetHashes, sh)] := by
+  apply Eq.symm
+  have hkeys : ([(Bundle.tstr kDate, d), (Bundle.tstr kExpires, x), (Bundle.tstr kAuthSha256, au),
+      (Bundle.tstr kValidityUrl, vu), (Bundle.tstr kSubsetHashes, sh)] : List Entry).map Prod.fst =
+      [Bundle.tstr kDate, Bundle.tstr kExpires, Bundle.tstr kAuthSha256, Bundle.tstr kValidityUrl,
+       Bundle.tstr kSubsetHashes] := rfl
+  apply sorted_perm_unique
+  · exact (bs_perm5 _ _ _ _ _).trans (sortEntries_perm _).symm
+  · rw [hkeys]; decide +kernel
+  · have : ([(Bundle.tstr kDate, d), (Bundle.tstr kExpires, x), (Bundle.tstr kAuthSha256, au),
+        (Bundle.tstr kValidityUrl, vu), (Bundle.tstr kSubsetHashes, sh)] : List Entry).Pairwise
+          (fun a b => ble a.1 b.1 = true) := by
+      rw [← List.pairwise_map (f := Prod.fst) (R := fun a b => ble a b = true), hkeys]
+      decide +kernel
+    exact this
+  · exact sortEntries_sorted _
+
+/-- `SignedSubset.Encode()` never fails, and this is what it writes -/
+theorem bs_encodeSignedSubset_eq (s : SignedSubset) : encodeSignedSubset s = .ok (
+    encodeMapHeader 5 ++ (Bundle.tstr kDate ++ (encodeInt s.date ++ (Bundle.tstr kExpires ++ (encodeInt s.expires ++
+      (Bundle.tstr kAuthSha256 ++ (encodeBytes s.authSha256 ++ (Bundle.tstr kValidityUrl ++ (textOrEmpty s.validityUrl ++
+        (Bundle.tstr kSubsetHashes ++ mapOrHeader (s.subsetHashes.map hashesEntry))))))))))) := by
+  rw [bs_encodeSignedSubset_def]
+  unfold encodeMap
+  simp only [bs_sort5]
+  have hd : hasAdjDup [(Bundle.tstr kDate, encodeInt s.date), (Bundle.tstr kExpires, encodeInt s.expires),
+      (Bundle.tstr kAuthSha256, encodeBytes s.authSha256), (Bundle.tstr kValidityUrl, textOrEmpty s.validityUrl),
+      (Bundle.tstr kSubsetHashes, mapOrHeader (s.subsetHashes.map hashesEntry))] = false := by
+    simp only [hasAdjDup, Bool.or_false, Bool.or_eq_false_iff]
+    decide +kernel
+  rw [if_neg (by rw [hd]; decide)]
+  simp only [List.map_cons, List.map_nil, List.flatten_cons, List.flatten_nil, List.append_nil, List.append_assoc,
+    List.length_cons, List.length_nil]
+
+/-! ### the key loop of `decodeSignedSubset`, one field at a time -/
+
+theorem bs_fields_date (urlOk : Bytes → Bool) (n : Nat) (z : Int) (r : Bytes) (acc : PartialSubset)
+    (h0 : 0 ≤ z) (h1 : z < 2 ^ 63) :
+    decodeSubsetFields urlOk (n + 1) (Bundle.tstr kDate ++ (encodeInt z ++ r)) acc =
+      decodeSubsetFields urlOk n r { acc with date := some z } := by
+  rw [decodeSubsetFields, bs_decode_tstr _ _ (by decide +kernel) (by decide)]
+  simp only
+  rw [if_neg (by decide), if_neg (by decide), if_pos trivial, (bs_decode_int z r h0 h1).1]
+  simp only [(bs_decode_int z r h0 h1).2]
+
+theorem bs_fields_expires (urlOk : Bytes → Bool) (n : Nat) (z : Int) (r : Bytes) (acc : PartialSubset)
+    (h0 : 0 ≤ z) (h1 : z < 2 ^ 63) :
+    decodeSubsetFields urlOk (n + 1) (Bundle.tstr kExpires ++ (encodeInt z ++ r)) acc =
+      decodeSubsetFields urlOk n r { acc with expires := some z } := by
+  rw [decodeSubsetFields, bs_decode_tstr _ _ (by decide +kernel) (by decide)]
+  simp only
+  rw [if_neg (by decide), if_neg (by decide), if_neg (by decide), if_pos trivial, (bs_decode_int z r h0 h1).1]
+  simp only [(bs_decode_int z r h0 h1).2]
+
+theorem bs_fields_auth (urlOk : Bytes → Bool) (n : Nat) (a : Bytes) (r : Bytes) (acc : PartialSubset)
+    (ha : a.length < 2 ^ 63) :
+    decodeSubsetFields urlOk (n + 1) (Bundle.tstr kAuthSha256 ++ (encodeBytes a ++ r)) acc =
+      decodeSubsetFields urlOk n r { acc with authSha256 := some a } := by
+  rw [decodeSubsetFields, bs_decode_tstr _ _ (by decide +kernel) (by decide)]
+  simp only
+  rw [if_neg (by decide), if_pos trivial, C12.roundtrip_bytes _ ha]
+
+theorem bs_fields_validity (urlOk : Bytes → Bool) (n : Nat) (u : Bytes) (r : Bytes) (acc : PartialSubset)
+    (hu : utf8Valid u = true) (hl : u.length < 2 ^ 63) (hok : urlOk u = true) :
+    decodeSubsetFields urlOk (n + 1) (Bundle.tstr kValidityUrl ++ (textOrEmpty u ++ r)) acc =
+      decodeSubsetFields urlOk n r { acc with validityUrl := some u } := by
+  rw [decodeSubsetFields, bs_decode_tstr _ _ (by decide +kernel) (by decide)]
+  simp only
+  rw [if_pos trivial, bs_textOrEmpty _ hu, bs_decode_tstr _ _ hu hl]
+  simp only
+  rw [if_pos hok]
+
+theorem bs_fields_hashes (urlOk : Bytes → Bool) (n : Nat) (l : List (Bytes × ResponseHashes)) (r : Bytes)
+    (acc : PartialSubset) (hg : ∀ p ∈ l, GoodEntry p) (hnd : (l.map Prod.fst).Nodup) (hn : l.length < 2 ^ 64) :
+    decodeSubsetFields urlOk (n + 1) (Bundle.tstr kSubsetHashes ++ (mapOrHeader (l.map hashesEntry) ++ r)) acc =
+      decodeSubsetFields urlOk n r { acc with subsetHashes := some (sortHashes l) } := by
+  rw [decodeSubsetFields, bs_decode_tstr _ _ (by decide +kernel) (by decide)]
+  simp only
+  rw [if_neg (by decide), if_neg (by decide), if_neg (by decide), if_neg (by decide), if_pos trivial,
+    bs_mapOrHeader_eq l hg hnd, List.append_assoc, C12.roundtrip_mapHeader _ hn]
+  simp only
+  have hp := bs_sortHashes_perm l
+  have := bs_decodeSubsetEntries (sortHashes l) [] r (fun p hp' => hg p (hp.mem_iff.mp hp'))
+    (by rw [List.nil_append]; exact ((hp.map Prod.fst).nodup_iff).mpr hnd)
+  rw [hp.length_eq] at this
+  rw [this]
+  simp only [List.nil_append]
+
+/-- **subset round trip**: `decodeSignedSubset` reads back what `SignedSubset.Encode` wrote; the URL map
+    comes back in the order of the encoded keys (a permutation, `bs_sortHashes_perm`). -/
+theorem bs_decode_encodeSignedSubset (urlOk : Bytes → Bool) (s : SignedSubset) (out : Bytes)
+    (henc : encodeSignedSubset s = .ok out)
+    (hvu : utf8Valid s.validityUrl = true) (hvl : s.validityUrl.length < 2 ^ 63) (hok : urlOk s.validityUrl = true)
+    (hal : s.authSha256.length < 2 ^ 63)
+    (hd : 0 ≤ s.date ∧ s.date < 2 ^ 63) (hx : 0 ≤ s.expires ∧ s.expires < 2 ^ 63)
+    (hg : ∀ p ∈ s.subsetHashes, GoodEntry p) (hnd : (s.subsetHashes.map Prod.fst).Nodup)
+    (hn : s.subsetHashes.length < 2 ^ 64) :
+    decodeSignedSubset urlOk out = some { s with subsetHashes := sortHashes s.subsetHashes } := by
+  rw [bs_encodeSignedSubset_eq] at henc
+  injection henc with henc
+  subst henc
+  unfold decodeSignedSubset
+  rw [C12.roundtrip_mapHeader 5 (by decide)]
+  simp only
+  have hnil : ∀ x : Bytes, x = x ++ [] := fun x => (List.append_nil x).symm
+  rw [bs_fields_date urlOk 4 _ _ _ hd.1 hd.2, bs_fields_expires urlOk 3 _ _ _ hx.1 hx.2,
+    bs_fields_auth urlOk 2 _ _ _ hal, bs_fields_validity urlOk 1 _ _ _ hvu hvl hok,
+    hnil (mapOrHeader _), bs_fields_hashes urlOk 0 _ _ _ hg hnd hn, decodeSubsetFields]
+  simp only
+  rw [bs_unixIsZero_false _ hd.1 hd.2, bs_unixIsZero_false _ hx.1 hx.2]
+  rfl
+
+/-- looking a URL up gives the same answer in the decoded subset as in the written one -/
+theorem bs_find_sortHashes (l : List (Bytes × ResponseHashes)) (hnd : (l.map Prod.fst).Nodup) (u : Bytes) :
+    (sortHashes l).find? (·.1 == u) = l.find? (·.1 == u) :=
+  Sxg.inv_find_perm _ _ (bs_sortHashes_perm l) hnd u
+
 end WebPkg.BSig
